@@ -348,10 +348,12 @@ pub struct QCfg {
     pub having_unselected: bool,  // HAVING over an aggregate that is not in the select list
     pub free_select: bool,        // select lists that are not `keys.., aggregates..`
     pub any_arg: bool,            // SUM / AVG over text columns, MIN / MAX over text
+    pub mix_num: bool,            // HAVING compares integer-valued with double-valued positions (not with wide values:
+                                  // beyond 2^53 the reference semantics is undefined and so is the model of HAVING)
 }
 impl QCfg {
-    pub fn plain() -> QCfg { QCfg { expr_keys: false, expr_args: false, having_unselected: false, free_select: false, any_arg: false } }
-    pub fn full() -> QCfg { QCfg { expr_keys: true, expr_args: true, having_unselected: true, free_select: true, any_arg: true } }
+    pub fn plain() -> QCfg { QCfg { expr_keys: false, expr_args: false, having_unselected: false, free_select: false, any_arg: false, mix_num: true } }
+    pub fn full() -> QCfg { QCfg { expr_keys: true, expr_args: true, having_unselected: true, free_select: true, any_arg: true, mix_num: true } }
 }
 
 #[derive(Clone, Copy, PartialEq, Debug)]
@@ -402,12 +404,12 @@ pub fn gen_where(rng: &mut Rng, t: &Table) -> Expr {
 }
 
 /// a HAVING predicate over the environment positions `avail` (with their types)
-fn gen_having(rng: &mut Rng, avail: &[(usize, ETy)], depth: usize) -> Expr {
+fn gen_having(rng: &mut Rng, avail: &[(usize, ETy)], depth: usize, mix_num: bool) -> Expr {
     if depth > 0 && rng.chance(1, 3) {
-        let a = gen_having(rng, avail, depth - 1);
+        let a = gen_having(rng, avail, depth - 1, mix_num);
         return match rng.below(5) {
-            0 | 1 => Expr::and(a, gen_having(rng, avail, depth - 1)),
-            2 | 3 => Expr::or(a, gen_having(rng, avail, depth - 1)),
+            0 | 1 => Expr::and(a, gen_having(rng, avail, depth - 1, mix_num)),
+            2 | 3 => Expr::or(a, gen_having(rng, avail, depth - 1, mix_num)),
             _ => Expr::not(a),
         };
     }
@@ -417,7 +419,7 @@ fn gen_having(rng: &mut Rng, avail: &[(usize, ETy)], depth: usize) -> Expr {
         6 => Expr::is_null(rng.chance(1, 2), Expr::Col(i)),
         7 => {
             // two positions of comparable types
-            let others: Vec<(usize, ETy)> = avail.iter().filter(|(_, t2)| (*t2 == ETy::Text) == (ty == ETy::Text)).cloned().collect();
+            let others: Vec<(usize, ETy)> = avail.iter().filter(|(_, t2)| if mix_num { (*t2 == ETy::Text) == (ty == ETy::Text) } else { *t2 == ty }).cloned().collect();
             let (j, _) = *rng.pick(&others);
             Expr::cmp(*rng.pick(&CmpOp::all()), Expr::Col(i), Expr::Col(j))
         }
@@ -474,7 +476,7 @@ pub fn gen_query(rng: &mut Rng, t: &Table, qc: &QCfg) -> Query {
         let mut avail: Vec<(usize, ETy)> = vec![];
         for i in 0..nkeys { avail.push((i, kty[i])); }
         for i in 0..aggs.len() { if sel.contains(&(nkeys + i)) || i >= nsel_aggs { avail.push((nkeys + i, aty[i])); avail.push((nkeys + i, aty[i])); } }
-        if !avail.is_empty() { having = Some(gen_having(rng, &avail, 2)); }
+        if !avail.is_empty() { having = Some(gen_having(rng, &avail, 2, qc.mix_num)); }
     }
     let where_ = if rng.chance(1, 3) { Some(gen_where(rng, t)) } else { None };
     if sel.is_empty() { sel.push(0); }
